@@ -50,6 +50,28 @@ def gen(ctx, seed, tier):
             else:
                 cases.append(bt.gen_history(r, page, tier).line())
     if seed == ctx.seed:
+        # a few histories AT the capacity of page size 64 (fix 1a03612: insert is refused with OVERFLOW, nothing else
+        # changes); they fail the spec's status clause and are classified as the known finding C01-MAXHEIGHT when the
+        # implementation agrees with the model
+        for pat in ("asc", "desc", "rand"):
+            h = bt.Hist(r, 64, flags="a" if pat == "asc" else "-")
+            ks = list(range(1, 420))
+            if pat == "desc":
+                ks.reverse()
+            elif pat == "rand":
+                r.shuffle(ks)
+            for j, k in enumerate(ks):
+                h.ins(k)
+                if j % 40 == 0:
+                    h.op("w")
+            h.op("w")
+            for k in ks[:150]:
+                h.rem(k)
+            h.op("w")
+            for k in ks[:60]:
+                h.ins(k)
+            h.op("w")
+            cases.append(h.line())
         for page in bt.PAGES:   # zix_btree_new under every script of its two requests
             for nb in ("N0", "N10", "N11", "N110", "N1"):
                 cases.append("%d a %s i1.1 i2.2 r1 w" % (page, nb))
